@@ -219,13 +219,13 @@ Qed.
 (* the names after `from sqlalchemy import` are exactly the set of inserted names, in strictly byte-wise order,
    whatever the iteration order of the HashSet was *)
 Theorem sa_line_bytewise_sorted pi t : admissible pi ->
-  exists l, sa_line pi t = "from sqlalchemy import " +++ join ", " l
-            /\ Permutation l (hs_of_inserts (sa_inserts t) [])
-            /\ StronglySorted bytewise_le l.
+  exists l, Permutation l (hs_of_inserts (sa_inserts t) []) /\ StronglySorted bytewise_le l
+            /\ sa_line pi t = match l with [] => [] | _ => ["from sqlalchemy import " +++ join ", " l] end.
 Proof.
-  intro H. exists (sort_str (hs_iter pi (sa_inserts t))). split; [reflexivity|]. split.
+  intro H. exists (sort_str (hs_iter pi (sa_inserts t))). split; [|split].
   - eapply Permutation_trans; [apply sort_str_permutation | apply H].
   - apply sort_str_sorted.
+  - unfold sa_line. destruct (sort_str (hs_iter pi (sa_inserts t))); reflexivity.
 Qed.
 
 Theorem datetime_line_bytewise_sorted pi t : admissible pi ->
